@@ -104,7 +104,11 @@ def check_case(case):
         planted = siblings.plant(os.path.join(d, "repodata.json"), case.get("sibling", "none"))
         if case.get("load_mutate"):
             # another part of the program loaded the same file earlier and changed ITS copy in memory (never written back)
-            mine = C.load_metadata_from_file(fn)
+            try:
+                mine = C.load_metadata_from_file(fn)
+            except Exception as e:      # noqa: BLE001
+                raise Violation("load_metadata_from_file raised %s on a well-formed repodata file (spelling %s): %s"
+                                % (type(e).__name__, case["style"], str(e)[:100]), bucket="loader raises " + type(e).__name__)
             if isinstance(mine, dict):
                 mine["packages"] = {}
                 mine["injected-in-memory-only"] = True
